@@ -19,6 +19,37 @@ class TranslationError(Exception):
     pass
 
 
+# Gallina for the exact-text lines of the skeletons below, one `let` per source line, emitted only when every line of
+# the function matched its skeleton (so the correspondence text <-> Gallina is this fixed table)
+TAIL_MART = """Definition gen_@_tail (N : option Z) (t u : Q) (xs ms : list Q) (fs : list Xq) : Xq * list Xq :=
+  let terms := xcumprod (Fin 1) fs in                                          (* terms = np.cumprod(factors) *)
+  let terms := absorb xis_zero (Fin 0) false fs terms in                      (* terms[np.cumsum(factors == 0) > 0] = 0 *)
+  let terms := map2 (gen_@_override u) ms terms in                            (* the boolean-mask assignments *)
+  let terms := if stot_exceeds N t xs then set_last terms PInf else terms in  (* terms[-1] = inf if Stot > N * t else terms[-1] *)
+  (xmin_py (Fin 1) (xinv (xmax_list terms)), map (fun tm => xmin_np (Fin 1) (xinv tm)) terms).
+"""
+TAIL_KK = """Definition gen_kk_tail (ro : bool) (xgs ms : list Q) : Xq * list Xq :=
+  let ratio := map2 (fun xg m => gen_kk_ratio_fix xg m (xdiv (Fin xg) (Fin m))) xgs ms in   (* ratio = (x + g) / m; ratio[...] = 1 *)
+  let terms := xcumprod (Fin 1) ratio in                                       (* terms = np.cumprod(ratio) *)
+  let terms := absorb xis_zero (Fin 0) false ratio terms in                   (* terms[np.cumsum(ratio == 0) > 0] = 0 *)
+  let terms := map3 gen_kk_override xgs ms terms in                           (* terms[(m < 0) | ...] = np.inf *)
+  let p := xmin_py (if ro then xinv (xmax_list terms) else xinv (xlast terms)) (Fin 1) in
+  (p, map (fun tm => xmin_np (xinv tm) (Fin 1)) terms).
+"""
+TAIL_KM = """Definition gen_km_tail (ro : bool) (fs : list Xq) : Xq * list Xq :=
+  let hist := xcumprod (Fin 1) fs in                                           (* p_history = np.cumprod(factors) *)
+  let hist := absorb xis_inf PInf false fs hist in                            (* p_history[np.cumsum(np.isinf(factors)) > 0] = np.inf *)
+  (xmin_np (Fin 1) (if ro then xmin_list hist else xlast hist), map (fun h => xmin_np h (Fin 1)) hist).
+"""
+TAIL_KW = """Definition gen_kw_tail (ro : bool) (fs : list Xq) : Xq * list Xq :=
+  let hist := xcumprod (Fin 1) fs in                                           (* p_history = np.cumprod(factors) *)
+  let hist := absorb xis_zero (Fin 0) false fs hist in                        (* p_history[np.cumsum(factors == 0) > 0] = 0 *)
+  (xmin_np (Fin 1) (if ro then xinv (xmax_list hist) else xinv (xlast hist)), map (fun h => xmin_np (xinv h) (Fin 1)) hist).
+"""
+TAIL_SPRT = """Definition gen_sprt_tail (ro : bool) (ph : Xq * list Xq) : Xq * list Xq :=
+  (if ro then fst ph else xlast (snd ph), snd ph).          (* sprt.alpha_mart(x); return (p if random_order else p_history[-1], p_history) *)
+"""
+
 TARGETS = {
     "nnm": [
         dict(name="lam_to_eta", file="shangrla/core/NonnegMean.py", func="NonnegMean.lam_to_eta",
@@ -64,7 +95,8 @@ TARGETS = {
                        ("text", "terms[np.cumsum(factors == 0) > 0] = 0"), ("endwith",),
                        ("masks", "terms", "override", ["u", "m"]),
                        ("text", "terms[-1] = np.inf if Stot > N * t else terms[-1]"),
-                       ("text", "return (min(1, 1 / np.max(terms)), np.minimum(1, 1 / terms))")]),
+                       ("text", "return (min(1, 1 / np.max(terms)), np.minimum(1, 1 / terms))")],
+             tail=TAIL_MART.replace("@", "alpha")),
         dict(name="betting", kind="skeleton", file="shangrla/core/NonnegMean.py", func="NonnegMean.betting_mart",
              skeleton=[("text", "N = self.N"), ("text", "t = self.t"), ("text", "u = self.u"),
                        ("text", "atol = kwargs.get('atol', 2 * np.finfo(float).eps)"),
@@ -76,7 +108,8 @@ TARGETS = {
                        ("text", "terms[np.cumsum(factors == 0) > 0] = 0"), ("endwith",),
                        ("masks", "terms", "override", ["u", "m"]),
                        ("text", "terms[-1] = np.inf if Stot > N * t else terms[-1]"),
-                       ("text", "return (min(1, 1 / np.max(terms)), np.minimum(1, 1 / terms))")]),
+                       ("text", "return (min(1, 1 / np.max(terms)), np.minimum(1, 1 / terms))")],
+             tail=TAIL_MART.replace("@", "betting")),
         dict(name="kk", kind="skeleton", file="shangrla/core/NonnegMean.py", func="NonnegMean.kaplan_kolmogorov",
              skeleton=[("text", "N = self.N"), ("text", "t = self.t"), ("text", "g = getattr(self, 'g', 0)"),
                        ("text", "random_order = getattr(self, 'random_order', True)"), ("text", "x = np.array(x)"),
@@ -86,25 +119,28 @@ TARGETS = {
                        ("text", "assert N == int(N), 'Non-integer population size!'"),
                        ("text", "_S, _Stot, _j, m = self.sjm(N, t + g, x + g)"),
                        ("with", "np.errstate(divide='ignore', invalid='ignore', over='ignore')"),
-                       ("assign", "ratio"), ("masks", "ratio", "ratio_fix", ["x", "g", "m"]),
+                       ("text", "ratio = (x + g) / m"), ("masks", "ratio", "ratio_fix", ["xg", "m"], {"x + g": "xg"}),
                        ("text", "terms = np.cumprod(ratio)"),
                        ("text", "terms[np.cumsum(ratio == 0) > 0] = 0"), ("endwith",),
-                       ("masks", "terms", "override", ["x", "g", "m"]),
+                       ("masks", "terms", "override", ["xg", "m"], {"x + g": "xg"}),
                        ("text", "p = min(1 / np.max(terms) if random_order else 1 / terms[-1], 1)"),
-                       ("text", "return (p, np.minimum(1 / terms, 1))")]),
+                       ("text", "return (p, np.minimum(1 / terms, 1))")],
+             tail=TAIL_KK),
         dict(name="km", kind="skeleton", file="shangrla/core/NonnegMean.py", func="NonnegMean.kaplan_markov",
              skeleton=[("text", "t = self.t"), ("text", "g = getattr(self, 'g', 0)"),
                        ("text", "random_order = getattr(self, 'random_order', True)"),
                        ("raise_guard",),
                        ("assign", "factors"), ("text", "p_history = np.cumprod(factors)"),
                        ("text", "p_history[np.cumsum(np.isinf(factors)) > 0] = np.inf"),
-                       ("text", "return (np.min([1, np.min(p_history) if random_order else p_history[-1]]), np.minimum(p_history, 1))")]),
+                       ("text", "return (np.min([1, np.min(p_history) if random_order else p_history[-1]]), np.minimum(p_history, 1))")],
+             tail=TAIL_KM),
         dict(name="kw", kind="skeleton", file="shangrla/core/NonnegMean.py", func="NonnegMean.kaplan_wald",
              skeleton=[("text", "g = getattr(self, 'g', 0)"), ("text", "random_order = getattr(self, 'random_order', True)"),
                        ("text", "t = self.t"), ("raise_guard",), ("raise_guard",),
                        ("assign", "factors"), ("text", "p_history = np.cumprod(factors)"),
                        ("text", "p_history[np.cumsum(factors == 0) > 0] = 0"),
-                       ("text", "return (np.min([1, 1 / np.max(p_history) if random_order else 1 / p_history[-1]]), np.minimum(1 / p_history, 1))")]),
+                       ("text", "return (np.min([1, 1 / np.max(p_history) if random_order else 1 / p_history[-1]]), np.minimum(1 / p_history, 1))")],
+             tail=TAIL_KW),
         dict(name="sprt", kind="skeleton", file="shangrla/core/NonnegMean.py", func="NonnegMean.wald_sprt",
              skeleton=[("text", "u = self.u"), ("text", "N = self.N"), ("text", "t = self.t"),
                        ("text", "eta = getattr(self, 'eta', u * (1 - np.finfo(float).eps))"),
@@ -112,7 +148,8 @@ TARGETS = {
                        ("raise_guard",), ("raise_guard",),
                        ("text", "sprt = NonnegMean(test=NonnegMean.alpha_mart, estim=NonnegMean.fixed_alternative_mean, u=u, N=N, t=t, eta=eta)"),
                        ("text", "p, p_history = sprt.alpha_mart(x)"),
-                       ("text", "return (p if random_order else p_history[-1], p_history)")]),
+                       ("text", "return (p if random_order else p_history[-1], p_history)")],
+             tail=TAIL_SPRT),
     ],
     "audit": [
         dict(name="overstatement_assorter", file="shangrla/core/Audit.py", func="Assertion.overstatement_assorter",
@@ -287,14 +324,14 @@ def flatten(stmts):
     return out
 
 
-def mask_expr(node, env, array):
+def mask_expr(node, env, array, atoms=None):
     """a numpy boolean mask, read entry-wise: comparisons of arithmetic expressions, np.isclose, | and &"""
     src = ast.unparse(node)
     if isinstance(node, ast.BinOp) and isinstance(node.op, (ast.BitOr, ast.BitAnd)):
         f = "orb" if isinstance(node.op, ast.BitOr) else "andb"
-        return f"({f} {mask_expr(node.left, env, array)} {mask_expr(node.right, env, array)})"
+        return f"({f} {mask_expr(node.left, env, array, atoms)} {mask_expr(node.right, env, array, atoms)})"
     if isinstance(node, ast.Compare) and len(node.ops) == 1:
-        l, r = expr(node.left, env, {}), expr(node.comparators[0], env, {})
+        l, r = expr(node.left, env, atoms or {}), expr(node.comparators[0], env, atoms or {})
         op = type(node.ops[0])
         table = {ast.Lt: f"(Qlt_bool {l} {r})", ast.Gt: f"(Qlt_bool {r} {l})", ast.LtE: f"(Qle_bool {l} {r})",
                  ast.GtE: f"(Qle_bool {r} {l})", ast.Eq: f"(Qeq_bool {l} {r})"}
@@ -306,10 +343,10 @@ def mask_expr(node, env, array):
             raise TranslationError(f"unsupported tolerances in {src}")
         at = "atol_np" if "atol" in kws else "(mkq (1) 100000000)"      # numpy's default atol = 1e-8
         rt = "rtol_u" if "rtol" in kws else "rtol_default"              # numpy's default rtol = 1e-5
-        a0 = expr(node.args[0], env, {})
+        a0 = expr(node.args[0], env, atoms or {})
         if ast.unparse(node.args[1]) == array:
             return f"(isclose_x {a0} term {rt} {at})"
-        return f"(isclose_q {a0} {expr(node.args[1], env, {})} {rt} {at})"
+        return f"(isclose_q {a0} {expr(node.args[1], env, atoms or {})} {rt} {at})"
     raise TranslationError(f"unsupported mask: {src}")
 
 
@@ -356,7 +393,8 @@ def translate_skeleton(target, fn):
             defs.append(f"Definition gen_{target['name']}_{gname} ({' '.join(args)} : Q) : Q :=\n  {body}.\n")
             pos += 1
         elif kind == "masks":
-            _, array, gname, args = sk
+            _, array, gname, args = sk[:4]
+            matoms = sk[4] if len(sk) > 4 else {}
             steps = []
             while pos < len(items) and items[pos][0] == "stmt":
                 st = items[pos][1]
@@ -370,7 +408,7 @@ def translate_skeleton(target, fn):
                 vals = {"0": "Fin 0", "1": "Fin 1", "np.inf": "PInf"}
                 if val not in vals:
                     raise TranslationError(f"{target['func']}: unsupported mask value {val}")
-                steps.append((mask_expr(sl, {a: a for a in args}, array), vals[val]))
+                steps.append((mask_expr(sl, {a: a for a in args}, array, matoms), vals[val]))
                 pos += 1
             if not steps:
                 raise TranslationError(f"{target['func']}: no mask assignment to {array} where one is expected")
@@ -383,6 +421,8 @@ def translate_skeleton(target, fn):
         it = items[pos]
         raise TranslationError(f"{target['func']}: statement beyond the skeleton: `{ast.unparse(it[1])[:120] if it[0] == 'stmt' else it}`")
     defs.append(f"Definition gen_{target['name']}_skeleton_matched : bool := true.\n")
+    if target.get("tail"):      # the data flow of the matched texts, line for line (emitted only when every line matched)
+        defs.append(target["tail"])
     return f"(* {target['file']}: {target['func']} (whole-function skeleton) *)\n" + "".join(defs)
 
 
